@@ -1,9 +1,12 @@
 #!/bin/bash
-# tools/try_seed.sh <patch.diff> <check ids...> : apply a seeded defect to /repo, run quick checks, undo.
+# tools/try_seed.sh <abs patch.diff> <check ids...> : apply a seeded defect to a scratch worktree of /repo's HEAD
+# (never to /repo itself, so background runs against /repo are not disturbed), run the quick checks against it, remove it.
 P="$1"; shift
-cd /repo && git apply "$P" || { echo "patch failed to apply"; exit 9; }
+W=/tmp/wt/try.$$
+git -C /repo worktree add -q --detach $W HEAD || exit 9
+( cd $W && git apply "$P" ) || { echo "patch failed to apply"; git -C /repo worktree remove --force $W; exit 9; }
 cd /verif
 for c in "$@"; do
-  ./check $c --tier quick 2>&1 | grep -v "^KNOWN-FINDING" | tail -4
+  VERIF_REPO=$W ./check $c --tier quick 2>&1 | grep -v "^KNOWN-FINDING" | tail -4
 done
-git -C /repo checkout -- . ; git -C /repo status --short | grep -v egg-info
+git -C /repo worktree remove --force $W
